@@ -695,6 +695,61 @@ def extract_index_exprs(bdir, tmap, fmap):
 
 
 # ---------------------------------------------------------------------------------------------------------------
+# "counted from the end" arithmetic: `ind = size - ind` (push_indexed_lvalue), `to = len - to`, `from = len - from`
+# (f_range, f_extract_range).  Every assignment `v = <expr containing a subtraction whose right operand is v>` of the
+# function, in source order, must be one of the expected sites; the expression is translated with its C types.
+
+REVERSE_EXPRS = [
+    ("src/interpret.c", "push_indexed_lvalue", "ind",
+     ["rev_lindex_str", "rev_lindex_buf", "rev_lindex_arr", "rev_sindex_buf", "rev_sindex_arr"]),
+    ("lib/lpc/operator.c", "f_range", "to", ["rev_range_str_to", "rev_range_buf_to", "rev_range_arr_to"]),
+    ("lib/lpc/operator.c", "f_range", "from", ["rev_range_str_from", "rev_range_buf_from", "rev_range_arr_from"]),
+    ("lib/lpc/operator.c", "f_extract_range", "from", ["rev_erange_str_from", "rev_erange_buf_from", "rev_erange_arr_from"]),
+]
+
+
+def _sub_of_self(n, var):
+    """the rhs contains `X - var` (possibly under casts): a reverse-index computation"""
+    return subtree_has(n, lambda m: m.get("kind") == "BinaryOperator" and m.get("opcode") == "-" and
+                       subtree_has(m["inner"][1], lambda q: _is_ref(q, var)) and
+                       not subtree_has(m["inner"][0], lambda q: _is_ref(q, var)))
+
+
+def extract_reverse_exprs(bdir):
+    out = []
+    unsigned = []
+    for src, fname, var, names in REVERSE_EXPRS:
+        fn = ast_function(bdir, src, fname)
+        found = []
+
+        def visit(n, _):
+            if n.get("kind") == "BinaryOperator" and n.get("opcode") == "=" and _is_ref(n["inner"][0], var) and \
+                    _sub_of_self(n["inner"][1], var):
+                found.append(n)
+        _walk(fn, visit)
+        if len(found) != len(names):
+            raise TieBroken("reverse-expr:%s:%s" % (fname, var), "%d assignments `%s = .. - %s` found in %s, expected %d" % (
+                len(found), var, var, fname, len(names)))
+        for name, n in zip(names, found):
+            tr = Tr()
+            try:
+                ex = tr.int_expr(n["inner"][1])
+            except OutOfGrammar as e:
+                raise TieBroken("reverse-expr:" + name, "expression left the grammar: %s" % e)
+            if len(tr.params) != 2 or tr.params[1][1] != var:
+                raise TieBroken("reverse-expr:" + name, "unexpected operands %s" % [p[1] for p in tr.params])
+            # the subtraction itself must be done in an unsigned type (signed overflow is undefined behaviour)
+            subs = []
+            _walk(n["inner"][1], lambda m, _: subs.append(m) if m.get("kind") == "BinaryOperator" and m.get("opcode") == "-" else None)
+            unsigned.append((name, all(ctype(m) in CTYPES and not CTYPES[ctype(m)][1] for m in subs)))
+            # the value is stored in an int64_t variable
+            out.append(lean_def(name, tr, "trunc64 (%s)" % ex, "%s: `%s = %s`" % (fname, var, c_text(n["inner"][1])), "Int"))
+    out.append("/-- (site, the C subtraction is done in an unsigned type: it cannot overflow) -/\ndef revSitesUnsigned : List (String × Bool) :=\n  [%s]\n" %
+               ", ".join('("%s", %s)' % (nm, "true" if u else "false") for nm, u in unsigned))
+    return "\n".join(out)
+
+
+# ---------------------------------------------------------------------------------------------------------------
 # explode_string(): piece count clamp, fill-loop bound, store indices (lib/lpc/array.c)
 
 def _walk(n, fn, in_for=0):
@@ -1182,6 +1237,7 @@ def generate_all(bdir, tvals):
 
     def p_explode():
         parts.append(extract_index_exprs(bdir, tmap, fmap))
+        parts.append(extract_reverse_exprs(bdir))
         parts.append(extract_explode(bdir))
         parts.append(extract_builder_sizes(bdir))
 
